@@ -227,7 +227,7 @@ func (proc *Processor) ExecuteStatement(ctx context.Context, stmt parser.Stateme
 						}
 					} else if !proc.Tx.Flags.ExportOptions.StripEndingLineBreak &&
 						!(proc.Tx.Session.OutFile() != nil && exportOptions.Format == option.FIXED && exportOptions.SingleLine) {
-						_, err = writer.Write([]byte(proc.Tx.Flags.ExportOptions.LineBreak.Value()))
+						_, err = writer.Write(encodedLineBreak(exportOptions))
 					}
 				}
 
